@@ -182,6 +182,54 @@ pub fn count_of(log: &OpLog, kind: Kind) -> u64 {
     log.counts[kind.index()]
 }
 
+/// Is the value type built *with* a `Drop` impl (the default)? The `plain-v` / `plain-k` builds of
+/// the harness instantiate the cache with a value / key type that has no drop glue at all
+/// (`mem::needs_drop::<T>() == false`): such objects are invisible to the token table.
+#[cfg(not(feature = "plain-v"))]
+pub const TRACK_V: bool = true;
+#[cfg(feature = "plain-v")]
+pub const TRACK_V: bool = false;
+#[cfg(not(feature = "plain-k"))]
+pub const TRACK_K: bool = true;
+#[cfg(feature = "plain-k")]
+pub const TRACK_K: bool = false;
+
+pub fn types_name() -> &'static str {
+    match (TRACK_K, TRACK_V) {
+        (true, true) => "tracked",
+        (true, false) => "plain-v",
+        (false, true) => "plain-k",
+        (false, false) => "plain-kv",
+    }
+}
+
+/// does the token table know this token (false for objects of a plain type)
+pub fn tracked(t: u64) -> bool {
+    with_ctx(|c| c.toks.contains_key(&t))
+}
+
+fn fresh_tok_t(track: bool) -> u64 {
+    with_ctx(|c| {
+        let t = c.next_tok;
+        c.next_tok += 1;
+        if track {
+            c.toks.insert(t, TokState::Live);
+        }
+        t
+    })
+}
+
+fn register_tok_t(t: u64, track: bool) {
+    with_ctx(|c| {
+        if c.next_tok <= t {
+            c.next_tok = t + 1;
+        }
+        if track {
+            c.toks.insert(t, TokState::Live);
+        }
+    })
+}
+
 pub fn fresh_tok() -> u64 {
     with_ctx(|c| {
         let t = c.next_tok;
@@ -254,11 +302,11 @@ pub struct MK {
 
 impl MK {
     pub fn new(id: u32, heap: usize) -> MK {
-        MK { id: KId(id), heap, tok: fresh_tok() }
+        MK { id: KId(id), heap, tok: fresh_tok_t(TRACK_K) }
     }
 
     pub fn with_tok(id: u32, heap: usize, tok: u64) -> MK {
-        register_tok(tok);
+        register_tok_t(tok, TRACK_K);
         MK { id: KId(id), heap, tok }
     }
 }
@@ -297,11 +345,12 @@ impl Clone for MK {
         // the token is taken before the injection point so that model and code agree on numbering
         let new = with_ctx(|c| c.next_tok);
         callback(Kind::CloneK, |c| c.events.push(Ev::CloneK(src, new)));
-        let tok = fresh_tok();
+        let tok = fresh_tok_t(TRACK_K);
         MK { id: self.id, heap: self.heap, tok }
     }
 }
 
+#[cfg(not(feature = "plain-k"))]
 impl Drop for MK {
     fn drop(&mut self) {
         drop_tok(self.tok, true);
@@ -321,11 +370,11 @@ pub struct MV {
 
 impl MV {
     pub fn new(heap: usize) -> MV {
-        MV { heap, tok: fresh_tok() }
+        MV { heap, tok: fresh_tok_t(TRACK_V) }
     }
 
     pub fn with_tok(heap: usize, tok: u64) -> MV {
-        register_tok(tok);
+        register_tok_t(tok, TRACK_V);
         MV { heap, tok }
     }
 }
@@ -343,11 +392,12 @@ impl Clone for MV {
         let src = self.tok;
         let new = with_ctx(|c| c.next_tok);
         callback(Kind::CloneV, |c| c.events.push(Ev::CloneV(src, new)));
-        let tok = fresh_tok();
+        let tok = fresh_tok_t(TRACK_V);
         MV { heap: self.heap, tok }
     }
 }
 
+#[cfg(not(feature = "plain-v"))]
 impl Drop for MV {
     fn drop(&mut self) {
         drop_tok(self.tok, false);
